@@ -84,6 +84,7 @@ type Session struct {
 
 	flipped, cutDone, stalled bool
 	tampered                  [2]atomic.Bool // a fault changed / removed bytes in that direction
+	capped                    atomic.Bool    // the step budget ran out: the teardown reset is the scheduler's doing
 	steps                     int
 }
 
@@ -183,7 +184,11 @@ func (s *Session) run(maxSteps int) {
 			continue
 		}
 		k := n
-		switch s.plan.chunk {
+		chunk := s.plan.chunk
+		if s.steps > maxSteps/2 && chunk != "byte" {
+			chunk = "all" // a long transfer in small pieces: finish it within the budget
+		}
+		switch chunk {
 		case "byte":
 			k = 1
 		case "small":
@@ -198,6 +203,13 @@ func (s *Session) run(maxSteps int) {
 		}
 	}
 	// teardown: nothing may stay blocked
+	if s.steps >= maxSteps && !(isDone(s.ea) && isDone(s.eb)) {
+		// out of steps with the peers still talking: the reset below is a fault
+		// of the schedule, not the peers' doing
+		s.capped.Store(true)
+		s.stats.Inc("fault.step-cap-reset")
+		s.log.Addf("sched: step budget exhausted, resetting connection")
+	}
 	s.a.out.kill()
 	s.b.out.kill()
 	s.a.Close()
